@@ -117,6 +117,10 @@ def inputs(tier):
                                                        dists=(3.0,) if tier == 'quick' else (2.8, 3.0, 6.0))]
     out += [dict(src='corpus', d=d) for d in corpus.clusters(tier)[:: (1 if tier == 'thorough' else 3)]]
     out += [dict(src='corpus', d=corpus.chain_desc('3SGB', 'I'))]
+    # exactly two-fold symmetric homodimers: the two partners of the contact have bit-identical pKa values before the iterative step (a tie)
+    for kind in ('ASP', 'GLU', 'HIS', 'LYS', 'TYR', 'CYS'):
+        for d in (2.8, 3.4):
+            out.append(dict(src='c2dimer', kind=kind, dist=d))
     # two copies of the same ligand in different chains that carry the same residue number
     for lig, partner in (('ACT', 'LYS'), ('MAM', 'GLU'), ('PYR', 'ASP'), ('MGU', 'GLU')):
         out.append(dict(src='twochains', lig=lig, partner=partner))
@@ -168,6 +172,14 @@ def run_case(case, ctx, acc):
         s = c08.build(dict(case['d'], layout=[tuple(x) for x in case['d']['layout']]), ctx.seed)
     elif case.get('src') == 'twochains':
         s = build_twochains(case, ctx.seed)
+    elif case.get('src') == 'c2dimer':
+        a = gen.kind_struct(case['kind'], 'A', 1)
+        a = gen.dock_at(a, gen.kind_atom(case['kind'], a), (case['dist'] / 2.0, 0.0, 0.0), (1.0, 0.0, 0.0))
+        b = a.copy().rotate(((0, 1, 2), (-1, -1, 1)))
+        for at in b.atoms:
+            at.chain = 'B'
+            at.resnum += 10
+        s = gen.S(a.items + ['TER\n'] + b.items + ['TER\n']).renumber_serials()      # (no seed offset: the symmetry axis is the z axis)
     else:
         s = corpus.build(case['d'], ctx.seed)
     text0 = gen.to_text(s)
@@ -216,6 +228,15 @@ def run_case(case, ctx, acc):
             acc.n += 1
             if d:
                 d = [('titrate-only/' + d[0][0],) + tuple(d[0][1:])]
+        if len(r1['conformations']) == 1:
+            # whatever the labels are, the reported average of a single conformation is that conformation (twins included: a group
+            # must not be looked up through a key that drops the insertion code)
+            only = dict(r1['confs'][r1['conformations'][0]])
+            only['groups'] = [g for g in only['groups'] if g['use']]
+            dd = cmp.diff_conf(r1['confs']['AVR'], only)
+            if dd:
+                acc.viols.append(Viol(sub, 'relabel', 'average-differs-from-only-conformation/%s/%s' % (name.split('/')[0], dd[0][0]),
+                                      '%s: %s' % (name, str(dd[0])[:250]), inputs=dict(pdb=text0, relabelled=text1)))
         if name.startswith('twin/'):
             # both members of the new twin pair named in one titrate-only list (either order) select the same two residues as
             # their old names do; only the set of reported groups is compared (the numbers of twins are the subject of KF-C06-*)
